@@ -341,7 +341,28 @@ def p7_exact_comparisons(run: Run, w: World) -> None:
     if not fns:
         raise AnalysisError("C02/P7: quantities._eval_is_ge not found")
     f = Fn(w, QMOD, "_eval_is_ge")
+    # quantities of inequivalent dimensions must not be ordered at all (otherwise SymPy folds Max(3 m, 2 s) to 3 m before the
+    # constructor sees the mismatch): every verdict is dominated by a dimension-equivalence guard that leaves the relation undecided
+    guards = []
+    for t in [n for n in f.cfg.stmt_nodes() if n.kind == "test" and isinstance(n.ast, ast.If)]:
+        calls = {c.func.attr if isinstance(c.func, ast.Attribute) else (dotted(c.func) or "") for c in ast.walk(t.ast.test) if isinstance(c, ast.Call)}
+        body = t.ast.body
+        if "equivalent_dims" in calls and len(body) == 1 and isinstance(body[0], ast.Return) and isinstance(body[0].value, ast.Constant) and body[0].value.value is None:
+            sl = f.slice(t, t.ast.test)
+            if {"lhs", "rhs"} <= sl.params and "dimension" in sl.attr_names:
+                guards.append(t)
     for r in f.cfg.returns():
+        v = r.ast.value
+        if isinstance(v, ast.Constant) and v.value is None:
+            continue
+        run.ob("P7", "_eval_is_ge:dimension-guard")
+        if not f.cfg.dominated_by(r, lambda y: y in guards):
+            run.violate("P7", f"{QMOD}:_eval_is_ge:dimension-guard", f.mod, r.ast,
+                        "quantities are ordered without a dimension-equivalence guard: Max/Min/Piecewise over quantities of different dimensions are silently decided by "
+                        "their scale factors (Quantity(Max(3 m, 2 s)) is accepted)")
+    for r in f.cfg.returns():
+        if isinstance(r.ast.value, ast.Constant) and r.ast.value.value is None:
+            continue
         run.ob("P7", "_eval_is_ge")
         v = r.ast.value
         v = v if not (isinstance(v, ast.Name)) else next((d.ast.value for d in f.cfg.reaching().get(r, {}).get(v.id, []) if isinstance(d.ast, ast.Assign)), v)
